@@ -45,7 +45,7 @@ OVERFLOWS = ['node-mins', 'leaf-cluster', 'face-lightmap', 'overlay-faces', 'tex
 
 def gen(rng: Rng, tier: str, index: int) -> dict:
     r = rng.child('cfg')
-    version = r.pick([19, 20, 20, 21, 21])
+    version = r.pick([19, 20, 20, 21, 21, 21, 22, 25, 25, 43, 43])     # 22 = INFRA, 25 = Chaos, 43 = VitaminSource layouts
     groups = [g for g in G.ALL_GROUPS if r.chance(0.45)]
     if not groups:
         groups = [r.pick(G.ALL_GROUPS)]
